@@ -217,6 +217,7 @@ func C03(c *Ctx) {
 	c.R.Rule("C03-R8", "E7", "who may call: the matcher reads neither the clock nor a random source", 1)
 	c.noClockOrChance("C03-R8", "Match: the outcome depends on the arguments only (no clock, no random source)", a, mm, "the matcher's outcome depends on the time or on chance: evaluating the same pattern, message and bindings again can give another result or another error")
 	c.R.Rule("C03-R10", "E3", "a binding set enters a result once", 1)
+	c.R.Rule("C03-R11", "E3", "an error about a ranged map as a whole is decided before the loop over it (inside the loop it would compete with a no-match exit at another key)", 1)
 	c03NoRepeatedResult(c, "C03-R10", c.newMatchModel().fns)
 	c.R.Rule("C03-R9", "E3", "no goroutine in the matcher shares a loop's variable with the loop", 1)
 	c03GoroutineSharesLoopVar(c, "C03-R9", c.newMatchModel().fns)
